@@ -229,7 +229,10 @@ class Ctx:
     strip = lambda m: __import__('re').sub(r'/tmp/[A-Za-z0-9_]+', '/tmp/X', m or '')
     ka = (a['status'], digest(a.get('info', {}) and a['info'].get('outcome')), strip(a.get('msg')))
     kb = (b['status'], digest(b.get('info', {}) and b['info'].get('outcome')), strip(b.get('msg')))
-    if ka != kb:
+    if ka != kb and a['status'] == 'ok' and b['status'] == 'ok':
+      # Only two *passing* executions with different observations indicate nondeterminism of the harness. If the
+      # oracle failed in either execution the case is simply executed (and reported) by the normal run that follows:
+      # state leaking between executions is one of the defects this machinery looks for, not a harness problem.
       raise HarnessError('harness nondeterminism in %s: the same case executed twice gave %r vs %r'
                          % (case_key(sub, case), ka, kb))
 
